@@ -618,6 +618,117 @@ def rule_arrays(chk, prog, tier):
     r.exhaustive = False
 
 
+# ------------------------------------------------------------------ C06.f alignment specifiers and attributes
+
+def rule_alignspec(chk, prog, tier):
+    r = chk.rule('C06.f', '_Alignas(n) / _Alignas(type) and __attribute__((aligned(n)|aligned|packed)) are evaluated as the platform compiler does: n must be a power of two (0 has no effect for _Alignas), the strictest specifier wins, aligned without argument means 16, spellings with __x__ are the same attribute, unsupported placements are diagnosed',
+                 floor=60, oracle='C11 6.7.5; GCC manual "Common Variable Attributes"; x86-64 __BIGGEST_ALIGNMENT__ = 16')
+    ds = prog.require_func('declspecs', 'decl.c')
+    pa = prog.require_func('parseattr', 'attr.c')
+    def cursor(it, toks):
+        tokobj = it.gobj('tok'); st = {'i': 0}
+        def load():
+            k, v = toks[min(st['i'], len(toks) - 1)]
+            tokobj.f[('kind',)] = ev(prog, 'TNUMBER' if k in ('ICE', 'TYPE') else k)
+            if k == 'TIDENT':
+                so = it.mkstr(list(v.encode()), v); so.writable = True
+                tokobj.f[('lit',)] = Ptr(so, (0,))
+            else: tokobj.f[('lit',)] = None
+            tokobj.f[('loc', 'file')] = None; tokobj.f[('loc', 'line')] = 1; tokobj.f[('loc', 'col')] = 1
+        def nxt(i2, a, e): st['i'] += 1; load(); return None
+        def consume(i2, a, e):
+            if tokobj.f[('kind',)] == a[0] and toks[min(st['i'], len(toks) - 1)][0] not in ('ICE', 'TYPE'): nxt(i2, a, e); return 1
+            return 0
+        def expect(i2, a, e):
+            if tokobj.f[('kind',)] != a[0] or toks[min(st['i'], len(toks) - 1)][0] in ('ICE', 'TYPE'): raise Terminal('error', 'expected token')
+            lit = tokobj.f[('lit',)]; nxt(i2, a, e); return lit
+        def ice(i2, a, e):
+            k, v = toks[st['i']]
+            if k != 'ICE': raise Terminal('error', 'expected constant expression')
+            nxt(i2, a, e); return v
+        it.models.update({'next': nxt, 'consume': consume, 'expect': expect, 'intconstexpr': ice,
+                          'error': lambda i2, a, e: (_ for _ in ()).throw(Terminal('error', cmodel.fmt_of(i2, a, 1))),
+                          'fatal': lambda i2, a, e: (_ for _ in ()).throw(Terminal('fatal', cmodel.fmt_of(i2, a, 0)))})
+        load()
+        return st
+    # ---- _Alignas in declaration specifiers
+    NS = [0, 1, 2, 3, 4, 6, 8, 16, 24, 64, 4096, 2 ** 30, 2 ** 31, 2 ** 31 + 1, 2 ** 32, 2 ** 63]
+    cases = [([('ICE', n)], n) for n in NS] + [([('TYPE', t)], t) for t in ('char', 'int', 'long', 'ldouble')]
+    cases += [([('ICE', a)], [('ICE', b)]) for a in (0, 4, 16) for b in (0, 8, 32)]
+    for c in cases:
+        specs = [c[0]] if not isinstance(c[1], list) else [c[0], c[1]]
+        def runner(it):
+            w = World(prog, it=it, target='x86_64-sysv')
+            toks = []
+            for sp in specs:
+                toks += [('TALIGNAS', None), ('TLPAREN', None), sp[0], ('TRPAREN', None)]
+            toks += [('TINT', None), ('TIDENT', 'x'), ('TSEMICOLON', None)]
+            st = cursor(it, toks)
+            def typename(i2, a, e):
+                k, v = toks[st['i']]
+                if k != 'TYPE': return None
+                st['i'] += 1
+                tokobj = i2.gobj('tok'); k2, v2 = toks[st['i']]; tokobj.f[('kind',)] = ev(prog, k2)
+                return w.t(v)
+            it.models.update({'typename': typename, 'attr': lambda i2, a, e: 0, 'gnuattr': lambda i2, a, e: 0})
+            al = Obj('align', 'local'); al.f[()] = UNINIT
+            sc = Obj('sc', 'local'); sc.f[()] = UNINIT
+            qt = it.call(ds, [Ptr(Obj('scope', 'heap'), ()), Ptr(sc, ()), None, Ptr(al, ())])
+            return al.f[()], qt.f[('type',)].obj is w.t('int').obj
+        runs = explore(prog, runner, {}, max_runs=4, on_unsupported='keep')
+        if len(runs) != 1 or runs[0].outcome == 'unsupported':
+            raise AnalysisBroken('declspecs alignas %s: %s' % (c, runs[0].detail if runs else 'no run'))
+        run = runs[0]
+        vals = []
+        for sp in specs:
+            k, v = sp[0]
+            vals.append(v if k == 'ICE' else TY[v][1])
+        key = 'alignas:%s' % ','.join(str(sp[0][1]) for sp in specs)
+        bad = any(v & (v - 1) or v > 2 ** 31 - 1 for v in vals)
+        if bad:
+            r.instance(run.outcome == 'terminal:error', key, 'decl.c:declspecs', 'an alignment that is not a power of two (or does not fit int) must be diagnosed; got %s' % (run.value if run.outcome == 'return' else run.outcome,))
+        else:
+            r.instance(run.outcome == 'return' and run.value == (max(vals), True), key, 'decl.c:declspecs', 'expected alignment %d; got %s %s' % (max(vals), run.outcome, run.value if run.outcome == 'return' else run.detail))
+    # ---- GNU attributes
+    AL, PK = ev(prog, 'ATTRALIGNED'), ev(prog, 'ATTRPACKED')
+    acases = []
+    for name in ('aligned', '__aligned__'):
+        for n in (None, 1, 2, 8, 16, 64, 2 ** 30, 0, 3, 12, 2 ** 31, 2 ** 32):
+            acases.append((name, n, AL | PK))
+    for name in ('packed', '__packed__'):
+        acases.append((name, None, AL | PK)); acases.append((name, None, AL)); acases.append((name, None, 0))
+    acases.append(('aligned', 8, PK)); acases.append(('aligned', 8, 0))
+    acases.append(('unknownattr', None, AL | PK)); acases.append(('__noreturn__', None, 0))
+    for name, n, allowed in acases:
+        def runner(it):
+            toks = [('TIDENT', name)] + ([('TLPAREN', None), ('ICE', n), ('TRPAREN', None)] if n is not None else []) + [('TRPAREN', None)]
+            st = cursor(it, toks)
+            a = Obj('attr', 'local'); a.f[('kind',)] = 0; a.f[('align',)] = 0
+            ok = it.call(pa, [Ptr(a, ()), allowed, ev(prog, 'PREFIXGNU')])
+            return ok, a.f[('kind',)], a.f[('align',)], st['i']
+        runs = explore(prog, runner, {}, max_runs=4, on_unsupported='keep')
+        if len(runs) != 1 or runs[0].outcome == 'unsupported':
+            raise AnalysisBroken('parseattr %s: %s' % (name, runs[0].detail if runs else 'no run'))
+        run = runs[0]
+        base = name.strip('_')
+        key = 'gnuattr:%s%s,allowed=%d' % (name, '' if n is None else '(%d)' % n, allowed)
+        ntok = 1 + (3 if n is not None else 0)
+        if base == 'aligned':
+            badn = n is not None and (n == 0 or n & (n - 1) or n > 2 ** 31 - 1)
+            if badn or not (allowed & AL):
+                r.instance(run.outcome == 'terminal:error', key, 'attr.c:parseattr', 'must be diagnosed (%s); got %s' % ('invalid alignment' if badn else 'attribute not supported here', run.value if run.outcome == 'return' else run.outcome))
+            else:
+                r.instance(run.outcome == 'return' and run.value == (1, AL, n if n is not None else 16, ntok), key, 'attr.c:parseattr', 'expected aligned with alignment %s; got %s' % (n if n is not None else 16, run.value if run.outcome == 'return' else run.outcome))
+        elif base == 'packed':
+            if not (allowed & PK):
+                r.instance(run.outcome == 'terminal:error', key, 'attr.c:parseattr', 'packed is not supported here and must be diagnosed; got %s' % (run.value if run.outcome == 'return' else run.outcome,))
+            else:
+                r.instance(run.outcome == 'return' and run.value[:2] == (1, PK) and run.value[3] == ntok, key, 'attr.c:parseattr', 'expected packed; got %s' % (run.value if run.outcome == 'return' else run.outcome,))
+        else:
+            r.instance(run.outcome == 'return' and run.value[:2] == (1, 0) and run.value[3] == ntok, key, 'attr.c:parseattr', 'an unknown attribute is skipped without effect; got %s' % (run.value if run.outcome == 'return' else run.outcome,))
+    r.exhaustive = False
+
+
 def run(chk, tier):
     prog = facts.programs()['cproc-qbe']
     chk.guard('C06.a', lambda: rule_layout(chk, prog, tier))
@@ -626,3 +737,4 @@ def run(chk, tier):
     chk.guard('C06.c', lambda: rule_enum(chk, prog, tier))
     chk.guard('C06.d', lambda: rule_offsetof(chk, prog, tier))
     chk.guard('C06.e', lambda: rule_arrays(chk, prog, tier))
+    chk.guard('C06.f', lambda: rule_alignspec(chk, prog, tier))
